@@ -78,13 +78,16 @@ MANUAL_PAGES = {
 }
 
 
-def accepted(site, phase, bug=False):
-    """-> dict kind -> True | 'maybe'   (kind 'abs' = an absolute path / a symbol whose value is absolute)
-    bug: defect model KF-C12-3 (dir-contents accepts the home directory although its help page does not list it)"""
+def accepted(site, phase):
+    """-> dict kind -> True | 'maybe' | 'unlisted'   (kind 'abs' = an absolute path / a symbol whose value is absolute)
+    True      the help page of the argument lists the relativity: it must be accepted and resolve correctly
+    'maybe'   the manual has no table for the cell: acceptance with correct resolution or rejection
+    'unlisted' READING argument, relativity not listed on its help page: the property restricts only arguments that
+              designate a file or directory to create or modify, so rejection before execution and acceptance with
+              the correct resolution are both fine (the regular generator never uses these cells)
+    missing   destination argument (or def): must be rejected"""
     conf = SITES[site]
     acc = {k: True for k in conf['acc']}
-    if bug and site == 'dir-contents':
-        acc['home'] = 'KF-C12-3'
     for k in conf.get('maybe', []):
         acc[k] = 'maybe'
     if phase in POST_ACT:
@@ -94,7 +97,15 @@ def accepted(site, phase, bug=False):
             acc[k] = 'maybe'
     if conf['abs_ok']:
         acc['abs'] = True
+    if not conf['dest'] and site != 'def':
+        for k in KINDS + ['here']:
+            acc.setdefault(k, 'unlisted')
     return acc
+
+
+def unaccepted(acc, kinds):
+    """the kinds of `kinds` that the argument does not list as accepted (must / may be rejected)"""
+    return [k for k in kinds if acc.get(k) in (None, 'unlisted')]
 
 
 # ---- layout of the work space ------------------------------------------------------------------------------
@@ -237,11 +248,12 @@ class Broken(Exception):
 
 
 class EvalInfo:
-    __slots__ = ('maybe', 'irregular')
+    __slots__ = ('maybe', 'irregular', 'unlisted')
 
     def __init__(self):
         self.maybe = False  # acceptance undocumented: rejection is acceptable too
         self.irregular = None  # 'abs+rel' | 'abs-dest'
+        self.unlisted = None  # (site, kind): reading argument given a relativity its help page does not list
 
 
 class State:
@@ -261,6 +273,7 @@ class State:
         self.xsyms = {}  # text-source / program / files-source symbols that hold a PATH: name -> (type, expr, phase, cwd)
         self.tree = fixture()
         self.maybe = False
+        self.unlisted = []
         self.irregular = []
         self.used = set()  # defect models that made a difference (mode 'bug')
         self.renders = {}  # id -> list of expected absolute strings
@@ -307,10 +320,10 @@ class State:
         a = acc.get(pv.kind)
         if a is None:
             raise Reject('validation', 'symbol %s has relativity %s' % (sym, pv.kind), pv.kind)
-        if a == 'maybe':
+        if a == 'unlisted':
+            info.unlisted = (self._site, pv.kind)
+        if a in ('maybe', 'unlisted'):
             info.maybe = True
-        elif a is not True:
-            self.used.add(a)
 
     def _join(self, pv, name, info):
         """pv joined with a further FILE-NAME `name` (not starting with '/')"""
@@ -343,7 +356,8 @@ class State:
 
     def _eval(self, expr, site, phase, info):
         conf = SITES[site]
-        acc = accepted(site, phase, self.mode == 'bug')
+        acc = accepted(site, phase)
+        self._site = site
         rel, lead, frags = expr.get('rel'), expr.get('lead'), expr['name']
         name = self.name_value(frags)
         const = all(t == 'l' for t, _ in frags)
@@ -361,10 +375,8 @@ class State:
             if rel is not None:
                 # "If FILE-NAME begins with a reference to a path symbol, then it is an absolute path" +
                 # "If FILE-NAME is an absolute path, then RELATIVITY must not be given"
-                if rel in OPTION and rel != 'here' and rel not in acc:
+                if rel in OPTION and acc.get(rel) is None and not (rel == 'here' and site == 'def'):
                     raise Reject('syntax', 'option %s not accepted' % rel)
-                if rel == 'here' and site != 'def':
-                    raise Reject('syntax', '-rel-here outside def')
                 raise Reject('either', 'RELATIVITY given although FILE-NAME begins with a path symbol')
             if name and not name.startswith('/'):
                 raise Broken('lead symbol must be followed by /')
@@ -402,7 +414,10 @@ class State:
             return self._join(base, name, info)
         if rel == 'here':
             if site != 'def':
-                raise Reject('syntax', '-rel-here outside def', 'here')
+                if acc.get('here') != 'unlisted':
+                    raise Reject('syntax', '-rel-here outside def', 'here')
+                info.maybe = True
+                info.unlisted = (site, 'here')
             here = _j('{HOME}', HERE_DIRS[int(expr.get('_inc') or 0)])
             if is_abs(name):
                 info.irregular = 'abs+rel'
@@ -416,10 +431,10 @@ class State:
         a = acc.get(rel)
         if a is None:
             raise Reject('syntax', 'option %s not accepted' % rel, rel)
-        if a == 'maybe':
+        if a == 'unlisted':
+            info.unlisted = (site, rel)
+        if a in ('maybe', 'unlisted'):
             info.maybe = True
-        elif a is not True:
-            self.used.add(a)
         if is_abs(name):
             info.irregular = 'abs+rel'
             if self.mode == 'bug':
@@ -489,6 +504,8 @@ class State:
         finally:
             if info.maybe:
                 self.maybe = True
+            if info.unlisted:
+                self.unlisted.append(info.unlisted)
             if info.irregular:
                 self.irregular.append(info.irregular)
 
@@ -677,6 +694,8 @@ class State:
         finally:
             if info.maybe:
                 self.maybe = True
+            if info.unlisted:
+                self.unlisted.append(info.unlisted)
             if info.irregular:
                 self.irregular.append(info.irregular)
 
@@ -696,7 +715,7 @@ def tag_of(st, loc):
 
 
 class Expected:
-    __slots__ = ('reject', 'maybe', 'irregular', 'state', 'why', 'cell')
+    __slots__ = ('reject', 'maybe', 'irregular', 'state', 'why', 'cell', 'unlisted')
 
 
 def simulate(case, mode='literal', real=lambda s: s):
@@ -723,6 +742,7 @@ def simulate(case, mode='literal', real=lambda s: s):
         exp.reject, exp.why = r.how, r.why
         exp.cell = (r.site, r.kind)
     exp.maybe = st.maybe
+    exp.unlisted = list(st.unlisted)
     exp.irregular = list(st.irregular)
     exp.state = st
     return exp
